@@ -138,6 +138,16 @@ def run(ctx):
                 else:
                     g.add_edge(a, b)
         evs.append(graph_event(g))
+    # emitter_sorted on 6-vertex graphs, most of them with a cut block whose real and GF(2) rank differ
+    adv6, rnd6 = [], []
+    tries = 0
+    while (len(adv6) < 12 or len(rnd6) < 6) and tries < 100000:
+        tries += 1
+        g6 = nx.gnp_random_graph(6, rng.choice([0.4, 0.5, 0.6, 0.7]), seed=rng.randrange(2 ** 31))
+        (adv6 if cut_ranks_differ(g6, 6) else rnd6).append(g6) if (len(adv6) < 12 or not cut_ranks_differ(g6, 6)) else None
+    pool6 = adv6[:12] + rnd6[:6]
+    for _ in range(4 if ctx.quick else 40):
+        evs.append(sorted_event(rng, rng.sample(pool6, 5)))
     ctx.extra["big_graph_height_events"] = sum(1 for e in evs if e["n"] >= 6)
     for n in (3, 4):
         pool = [g for g in graphs if g.number_of_nodes() == n]
